@@ -23,3 +23,6 @@
   (ite (form2 lo hi)
        ((_ zero_extend 142) (concat #b100 ((_ extract 46 0) hi) lo))
        ((_ zero_extend 143) (concat ((_ extract 48 0) hi) lo))))
+(define-fun pow2 ((n (_ BitVec 256))) (_ BitVec 256) (bvshl (_ bv1 256) n))
+(define-fun shl ((x (_ BitVec 256)) (o (_ BitVec 256))) (_ BitVec 256) (bvshl x o))
+(define-fun shr ((x (_ BitVec 256)) (o (_ BitVec 256))) (_ BitVec 256) (bvlshr x o))
